@@ -17,7 +17,7 @@ MANIFEST = dict(
     text='Theorems (Coq, all inputs f, l, k >= 1 and all arrival orders): the chunks of _get_tasks concatenate to the input, '
          'all but the last have length k; the default chunk size is >= 1 and gives at most 4p chunks; folding MapResult._set over '
          'ANY permutation of the chunk indices with results map f (chunk i) leaves exactly map f l, number_left reaches 0 exactly at '
-         'the last chunk and the callback fires once with map f l; empty input resolves at construction with []; under cache-guarded '
+         'the last chunk and the callback fires once with map f l (end to end from Pool.map\'s arguments: default or explicit chunk size, any pool size); empty input resolves at construction with []; under cache-guarded '
          'delivery the reported failure is the payload of the first failing chunk handled (a chunk of this job) and later messages '
          'change nothing; IMapIterator: for every interleaving of arrivals (each index once), next() calls and set_length(n) at any '
          'point, next() returns obj_0..obj_{n-1} in order (error items raise at their own position, iteration continues) then '
@@ -77,6 +77,13 @@ def gen_chunks(rng):
     size = rng.choice([rng.randint(1, n + 2), rng.randint(1, n + 2), rng.randint(1, 4), 0, -1, n, n + 1])
     base = rng.randint(0, 5)
     return dict(t='chunks', l=list(range(base, base + n)), size=size)
+
+
+def gen_star(rng):
+    n = rng.randint(0, 8)
+    star = rng.random() < 0.5
+    c = [[rng.randint(-5, 20), rng.randint(-5, 20)] for _ in range(n)] if star else [rng.randint(-5, 40) for _ in range(n)]
+    return dict(t='star', star=star, a=rng.randint(-3, 9), b=rng.randint(-3, 9), c=c)
 
 
 def gen_async(rng):
@@ -292,12 +299,15 @@ def boundary_cases():
             expect += [['yield', x] for x in v] if g == 'good' else [['raise', v]]
         out.append(dict(t='flat', unordered=False, input=l, cs=2, ops=ops, kind='clean', expect=expect,
                         nbad=0 if badpos is None else 1))
+    out.append(dict(t='star', star=False, a=10, b=1, c=[1, 2, 3]))
+    out.append(dict(t='star', star=True, a=100, b=1, c=[[1, 2], [3, 4], [5, 6]]))
+    out.append(dict(t='star', star=False, a=1, b=0, c=[]))
     out.append(dict(t='apply', cb=True, ecb=True, ops=[['get'], ['ack'], ['set', ['good', 7]], ['get']]))
     out.append(dict(t='apply', cb=True, ecb=True, ops=[['set', ['bad', 9]], ['ack'], ['get'], ['dset', ['good', 1]], ['get']]))
     return out
 
 
-GENS = [(gen_chunks, 1), (gen_async, 2), (gen_map, 5), (gen_imap, 4), (gen_flat, 2), (gen_apply, 1)]
+GENS = [(gen_chunks, 1), (gen_star, 1), (gen_async, 2), (gen_map, 5), (gen_imap, 4), (gen_flat, 2), (gen_apply, 1)]
 
 
 def gen_cases(rng, n):
@@ -383,6 +393,11 @@ def to_coq(c, o):
     if t == 'chunks':
         b = 'None' if o['batches'] is None else '(Some %s)' % clist(o['batches'], clist)
         return '(CChunks %s %s %s)' % (clist(c['l']), cz(c['size']), b)
+    if t == 'star':
+        if c['star']:
+            return '(CStarmapstar %s %s %s %s)' % (cz(c['a']), cz(c['b']),
+                                                   clist(c['c'], lambda p: '(%s, %s)' % (cz(p[0]), cz(p[1]))), clist(o['out']))
+        return '(CMapstar %s %s %s %s)' % (cz(c['a']), cz(c['b']), clist(c['c']), clist(o['out']))
     if t == 'async':
         if o['raised']:
             impl = 'None'
@@ -482,10 +497,13 @@ SIG_BY_TYPE = dict(chunks='C02:chunks-differ-from-model', map='C02:map-result-di
                    imap='C02:imap-output-differs-from-model', flat='C02:imap-chunked-output-differs-from-model',
                    apply='C02:apply-result-differs-from-model')
 SIG_BY_TYPE['async'] = 'C02:map-async-differs-from-model'
+SIG_BY_TYPE['star'] = 'C02:mapstar-differs-from-sequential'
 
 
 def nontrivial(c):
     t = c['t']
+    if t == 'star':
+        return len(c['c']) >= 2
     if t in ('chunks', 'async'):
         return len(c['l']) >= 2
     return sum(1 for op in c['ops'] if op[0] != 'get' and op[0] != 'next') >= 2
@@ -516,6 +534,12 @@ def correspond(res, n):
                      'imap generator; non-trivial = input length >= 2 (chunks/async) or >= 2 state-changing ops; distinct by canonical '
                      'JSON' % len(bnd),
                 case_kinds=hist, sizes=sizes)
+    nmon = 0
+    for c, o in zip(cases, outs):
+        m = monitor(c, o)
+        nmon += 1
+        if m:
+            res.alarms.append(dict(signature=m[0], what=m[1], replay=dict(case=c, impl=o)))
     for i, code in codes:
         c, o = cases[i], outs[i]
         if code == 2:
@@ -526,12 +550,6 @@ def correspond(res, n):
         else:
             res.broken.append(dict(kind='correspondence', name='Reassembly model vs code (internal fields) on a %s case' % c['t'],
                                    detail=json.dumps(dict(case=c, impl=o))[:3000]))
-    nmon = 0
-    for c, o in zip(cases, outs):
-        m = monitor(c, o)
-        nmon += 1
-        if m:
-            res.alarms.append(dict(signature=m[0], what=m[1], replay=dict(case=c, impl=o)))
     res.cov['monitor_evaluations'] = nmon
     # documented observation, outside the property (a chunk size is a positive integer): an explicit
     # chunksize <= 0 resolves the MapResult at construction with [None]*n (theorem C02_nonpositive_chunksize_observation)
